@@ -1,6 +1,7 @@
 import TabulaModel.Util
 import TabulaModel.Model.Html
 import TabulaModel.Model.HtmlSpec
+import TabulaModel.Model.HtmlApi
 /-
 Line protocol of C19.
 
@@ -153,17 +154,15 @@ def dumpEl : Element → String
 def joinOrDash (xs : List String) : String := if xs.isEmpty then "-" else ";".intercalate xs
 
 /-- the element list of `DocumentWithOptions`: code and block quotes become paragraphs,
-tables become a grid as wide as the longest row, padded with empty cells -/
+tables become their grid (`tableGrid`, Model/HtmlApi.lean): cells at the positions where they
+stand, empty cells at the covered and open positions -/
 def dumpDocEl : Element → String
   | .heading l t => s!"H{l}:{hexS t}"
   | .para t => s!"P:{hexS t}"
   | .code t => s!"P:{hexS t}"
   | .quote t => s!"P:{hexS t}"
   | .list o items => s!"L{if o then "o" else "u"}:{dumpItems items}"
-  | .table _ rows =>
-    let n := rows.foldl (fun a r => max a r.length) 0
-    let pad (r : List Cell) : List Cell := r ++ List.replicate (n - r.length) ⟨[], false, 1, 1⟩
-    s!"T:{dumpRows (rows.map pad)}"
+  | .table _ rows => s!"T:{dumpRows (tableGrid rows)}"
 
 mutual
 partial def xbits (m : Mode) (w : Bool) (pos : Pos) : Dom → String
